@@ -44,11 +44,13 @@ def histories(draw, kind):
     if frozen_idx is not None and nparams >= 2:
         params[frozen_idx]["frozen"] = True
     steps = []
-    steps.append({"k": "backward", "c": [draw(st.integers(-16, 16)) / 8.0 for _ in range(6)]})
+    steps.append({"k": "backward", "c": [draw(st.integers(-16, 16)) / 8.0 for _ in range(6)],
+                  "mask": draw(st.sampled_from([[1, 1, 1, 1], [1, 1, 1, 1], [1, 0, 1, 1], [0, 1, 1, 0]]))})
     for _ in range(draw(st.integers(3, 18))):
         k = draw(st.sampled_from(["backward", "backward", "step", "step", "step", "zero_grad"]))
         if k == "backward":
-            steps.append({"k": "backward", "c": [draw(st.integers(-16, 16)) / 8.0 for _ in range(6)]})
+            steps.append({"k": "backward", "c": [draw(st.integers(-16, 16)) / 8.0 for _ in range(6)],
+                          "mask": draw(st.sampled_from([[1, 1, 1, 1], [1, 1, 1, 1], [1, 0, 1, 1], [0, 1, 1, 0], [0, 0, 1, 1], [1, 1, 0, 1]]))})
         else:
             steps.append({"k": k})
     return {"opt": kind, "hp": hp, "params": params, "steps": steps, "dtype": draw(gen.DTYPES)}
@@ -129,13 +131,21 @@ def check_history(c, rec):
         hist.append(s["k"])
         if s["k"] == "backward":
             loss = None
+            mask = s.get("mask", [1, 1, 1, 1])
+            used = [bool(mask[i % len(mask)]) and ps[i].requires_grad for i in range(len(ps))]
+            if not any(used):
+                continue
+            if not all(used[i] or frozen[i] for i in range(n)):
+                flags.add("partial_backward")
             for i, p in enumerate(ps):
+                if not used[i]:
+                    continue
                 ci = gen.cyc(s["c"][i:] + s["c"][:i], p.shape, dt)
                 term = (p * Tensor(ci)).sum()
                 loss = term if loss is None else loss + term
             loss.backward()
             for i in range(n):
-                if not frozen[i]:
+                if not frozen[i] and used[i]:
                     ci = gen.cyc(s["c"][i:] + s["c"][:i], ps[i].shape, np.float64)
                     egrad[i] = ci if egrad[i] is None else egrad[i] + ci
                     has_grad[i] = True
@@ -152,8 +162,10 @@ def check_history(c, rec):
             since_zero_backwards = 0
             last_was_step = False
         else:
-            if not all(has_grad[i] or frozen[i] for i in range(n)) or all(frozen):
+            if not any(has_grad[i] and not frozen[i] for i in range(n)):
                 continue
+            if not all(has_grad[i] or frozen[i] for i in range(n)):
+                flags.add("step_with_gradless_param")
             before_extra = (extra.data.tobytes(), None if extra.grad is None else extra.grad.data.tobytes())
             before_frozen = [ps[i].data.tobytes() for i in range(n)]
             grads_before = [None if ps[i].grad is None else ps[i].grad.data.tobytes() for i in range(n)]
@@ -169,6 +181,12 @@ def check_history(c, rec):
                     if p.data.tobytes() != before_frozen[i]:
                         raise Violation("frozen_moved", f"{kind}.step() changed a frozen parameter (requires_grad=False); "
                                                         f"hp={hp} history={hist}")
+                    continue
+                if not has_grad[i]:
+                    # a trainable parameter that no backward has reached yet: the published rules skip it
+                    if p.data.tobytes() != before_frozen[i]:
+                        raise Violation("gradless_moved", f"{kind}.step() changed a parameter that has no gradient yet; "
+                                                          f"hp={hp} history={hist}")
                     continue
                 ref.step(i, egrad[i])
                 if id(p.data) != ids[i]:
@@ -194,7 +212,7 @@ def check_history(c, rec):
                 flags.add("step_without_zero_grad")
             flags.add("had_step")
             last_was_step = True
-    nt = nsteps >= 2 and (bool({"accumulated_backward", "step_without_zero_grad"} & flags) or hp["maximize"]
+    nt = nsteps >= 2 and (bool({"accumulated_backward", "step_without_zero_grad", "step_with_gradless_param"} & flags) or hp["maximize"]
                           or (kind == "sgd" and hp["momentum"] != 0 and (hp["dampening"] != 0 or hp["nesterov"]))
                           or (hp["weight_decay"] != 0 and any(frozen)))
     rec.nontrivial(nt)
